@@ -239,6 +239,61 @@ def refine_limits(ctx, janet, table, stack_kb, timeout, env, label):
     return limits, crashes
 
 
+def peg_kinds(ctx, janet, broken):
+    """kinds for the peg-comb consumers: every use form of harness/C19/pegtemplates.janet; cross-checked against the
+    combinator names in the current peg.c (a special without template and not listed as leaf = broken tie)"""
+    code = ('(def T (dofile "%s")) (each [n i f] (((T (quote all-uses)) :value)) (print "USE " n "#" i)) '
+            '(each n ((T (quote leaf)) :value) (print "LEAF " n))') % os.path.join(VERIF, "harness/C19/pegtemplates.janet")
+    r = subprocess.run([janet, "-e", code], stdout=subprocess.PIPE, stderr=subprocess.PIPE, timeout=60)
+    uses, leaf = [], set()
+    for line in r.stdout.decode().splitlines():
+        if line.startswith("USE "):
+            uses.append(line[4:])
+        elif line.startswith("LEAF "):
+            leaf.add(line[5:])
+    if r.returncode or not uses:
+        broken.append("pegtemplates.janet does not load: " + r.stderr.decode(errors="replace")[-300:])
+        ctx.broken.append(broken[-1])
+        return []
+    try:
+        specials = cgm.peg_specials(ctx.build.tree)
+    except ExtractError as e:
+        broken.append("translator peg_specials: %s" % e)
+        ctx.broken.append(broken[-1])
+        return uses
+    have = set(u.split("#")[0] for u in uses) | leaf
+    missing = sorted(n for n, fn in specials if n not in have)
+    if missing:
+        broken.append("PEG specials without a recursion template in harness/C19/pegtemplates.janet: %s" % ", ".join(missing))
+        ctx.broken.append(broken[-1])
+    return uses
+
+
+SCANNING = ("thru", "to", "til", "split", "sub")
+
+
+def peg_drift(ctx, broken):
+    """depth-counter balance oracle: every use form x sub-rule outcome x text on the real peg_rule (wrapper TU, ASan);
+    a match that returns normally must leave PegState.depth where it was"""
+    try:
+        hx = ctx.build.harness("asan", "c19pegdepth", [os.path.join(VERIF, "harness/C19/pegdepth.c")])
+    except BuildError as e:
+        broken.append("harness pegdepth.c does not compile against the current tree: %s" % str(e)[-300:])
+        ctx.broken.append(broken[-1])
+        return {"matches": 0}
+    env = dict(os.environ, ASAN_OPTIONS="detect_leaks=0:abort_on_error=0")
+    rc, out, err = run_cmd_([hx, os.path.join(VERIF, "harness/C19/pegdrift.janet")], "", env)
+    lines = out.splitlines()
+    summ = [l for l in lines if l.startswith("SUMMARY ")]
+    if rc != 0 or not summ:
+        ctx.violation("pegdepth-crash", {"kind": "crash", "rc": rc, "stderr": err[-1500:], "stdout": out[-500:]},
+                      what="peg depth-balance harness crashed (rc=%s)" % rc)
+        return {"matches": 0, "crashed": True}
+    n, errs, nd = [int(x) for x in summ[0].split()[1:4]]
+    drifts = [l for l in lines if l.startswith("DRIFT ")]
+    return {"matches": n, "errors": errs, "drifts": nd, "first": drifts[:5], "by_special": sorted(set(l.split()[1] + "#" + l.split()[2] for l in drifts))}
+
+
 def consumers_for(bad_cycles):
     out = []
     for cyc in bad_cycles:
@@ -271,6 +326,15 @@ def run(ctx, only=None):
         ctx.gen("Depth.lean", cgm.render(g))
         for nm, err in g.exemption_failures:
             ctx.say("exemption no longer valid: %s: %s" % (nm, err))
+        for pth in g.unbalanced:
+            broken.append("depth counter %s not balanced in %s at %s (%s exit): %d charge(s), %d release(s) [theorem cg_counters_balanced]"
+                          % (pth[0], pth[1], pth[2], pth[3], pth[4], pth[5]))
+            ctx.broken.append(broken[-1])
+            ctx.say(broken[-1])
+        for cyc in g.deptharg["cycles"]:
+            broken.append("marshal depth argument not charged on the call cycle %s [theorem cg_depth_arg_charged]" % " -> ".join(cyc))
+            ctx.broken.append(broken[-1])
+            ctx.say(broken[-1])
         ctx.say("call graph: %d functions, %d call sites, %d on cycles in %d SCCs, %d guard functions; unguarded cycles: %s"
                 % (g.nfuncs, g.ncalls, len(g.nodes), len(g.comps), len(g.guard), g.bad))
     except ExtractError as e:
@@ -292,11 +356,25 @@ def run(ctx, only=None):
     v = ctx.try_variant("plain")
     if v is None:
         return ctx.finish("proof", {"evaluations": 0, "distinct_nontrivial": 0})
+    drift = peg_drift(ctx, broken)
+    if drift.get("drifts"):
+        broken.append("peg_rule depth counter not balanced: %d of %d matches leave PegState.depth changed; first: %s"
+                      % (drift["drifts"], drift["matches"], drift["first"][0]))
+        ctx.broken.append(broken[-1])
+    pk = peg_kinds(ctx, v["janet"], broken)
+    leaky = set(drift.get("by_special", []))
+    if pk:
+        CONSUMERS["peg-comb"] = (pk, None, "peg")
+        CONSUMERS["peg-compile-comb"] = (pk, 4096, "peg")
     limits_static = [g.limits.get("JANET_RECURSION_GUARD", 1024), g.limits.get("JANET_MAX_PROTO_DEPTH", 200),
                      g.limits.get("JANET_MAX_MACRO_EXPAND", 200)] if g else [1024, 200]
     top = 10 ** 6
     sched = depth_schedule(limits_static, ctx.tier, top)
     suspects = consumers_for(g.bad) if g and g.bad else []
+    if g and any(pth[1] == "peg_rule" for pth in g.unbalanced):
+        suspects += ["peg-comb", "peg-match"]
+    if g and g.deptharg["cycles"]:
+        suspects += ["marshal", "unmarshal", "unmarshal-defs", "unmarshal-abstract"]
     # a linear recursion that survives depth D under 8 MB survives D/8 under 1 MB, and no C frame is smaller than 32
     # bytes (2^18 * 32 B = 8 MB): quick tier drives the first kind of every consumer (and every suspect named by the
     # static part) to 10^6 and the other kinds to 2^18; thorough drives everything to 10^6.
@@ -306,6 +384,10 @@ def run(ctx, only=None):
             continue
         for i, k in enumerate(kinds):
             t = top if (not quick or i == 0 or c in suspects) else 2 ** 18
+            if c == "peg-comb":
+                # witness search: a use form with a depth-counter drift is driven to 10^6; scanning combinators re-read
+                # the rest of the text at every level (quadratic), so they stop at 2^17 in the quick tier
+                t = top if (k in leaky or not quick) else (2 ** 17 if k.split("#")[0] in SCANNING else 2 ** 18)
             if cap:
                 t = min(t, cap)
             jobs.append((c, k, [d for d in sched if d <= t]))
@@ -354,7 +436,10 @@ def run(ctx, only=None):
                        "last_ok_depth": first.get("last_ok_depth"), "stderr": first["stderr"],
                        "cmd": "ulimit -s %d; <%s>/janet %s %s %s %d" % (first["stack_kb"], first["variant"].split("-")[0], SWEEP, c, first["kind"], first["depth"]),
                        "all": [{k: x[k] for k in ("kind", "depth", "variant", "rc")} for x in crs],
-                       "static": [cyc for cyc in (g.bad if g else []) if any(c in ENTRY_CONSUMERS.get(fn, []) for fn in cyc)]},
+                       "static": [cyc for cyc in (g.bad if g else []) if any(c in ENTRY_CONSUMERS.get(fn, []) for fn in cyc)],
+                       "broken_obligations": broken[:10],
+                       "grammar": ("harness/C19/pegtemplates.janet use form %s; grammar built by consumer peg-comb in harness/C19/sweep.janet"
+                                   % first["kind"]) if c.startswith("peg-") and "#" in first["kind"] else None},
                       what="consumer `%s` on %s nested %d deep kills the process (rc=%s, %s)" % (c, first["kind"], first["depth"], first["rc"], first["variant"]))
     # tail calls must COMPLETE at every depth (fiber limited to 256 slots): an error here means a tail call pushed a frame
     for label, table in tables.items():
@@ -405,8 +490,13 @@ def run(ctx, only=None):
         "observations_out_of_scope": observations,
         "informational_1MB_stack_crashes": stack_budget_1mb,
         "tail_frame_correspondence": corr,
+        "peg_depth_balance_oracle": drift,
         "exemptions": None if not g else {"bounded_by_argument": g.bounded, "indirect_edges": sorted(set(w for _, _, w in g.exempted)),
                                           "failed_revalidation": g.exemption_failures},
+        "counter_balance": None if not g else {"path_classes": len(g.balance), "unbalanced": g.unbalanced,
+                                               "functions": sorted(set(pth[1] for pth in g.balance))},
+        "depth_argument_charging": None if not g else {"functions": g.deptharg["fns"], "non_charging_edges": g.deptharg["zero"],
+                                                       "uncharged_cycles": g.deptharg["cycles"]},
         "callgraph": None if not g else {"functions": g.nfuncs, "call_sites": g.ncalls, "address_taken": len(g.ir.addr_taken),
                                          "cycle_functions": len(g.nodes), "sccs": len(g.comps), "guards": len(g.guard),
                                          "edges": len(g.edges), "unguarded_cycles": g.bad, "cut": g.cut,
